@@ -173,11 +173,13 @@ theorem frame_mDel (s : State) (r arg : String) : Frame r s (mDel s r arg).1 := 
   simp only []
   split
   · exact frame_touch s r
-  · refine Frame.trans (Frame.trans (frame_touch s r) ?_) (frame_indexRemove _ r _)
-    repeat' split
-    all_goals first
-      | exact Frame.refl r _
-      | exact frame_referrerDelete _ r _ _
+  · split
+    · exact frame_touch s r
+    · refine Frame.trans (Frame.trans (frame_touch s r) ?_) (frame_indexRemove _ r _)
+      repeat' split
+      all_goals first
+        | exact Frame.refl r _
+        | exact frame_referrerDelete _ r _ _
 
 theorem frame_mGet (s : State) (r arg : String) (acc : List String) (hd : Bool) (rng : String) : Frame r s (mGet s r arg acc hd rng).1 := by
   unfold mGet
